@@ -304,3 +304,27 @@ func adminPurge(cacheName, key string) (int, error) {
 	resp.Body.Close()
 	return resp.StatusCode, nil
 }
+
+// waitUpstreamHealthy: the suites that talk to a loopback origin they know to be alive need the upstream's initial
+// health check to have seen it; on a busy machine (connect time-outs, ephemeral ports used up by earlier cases)
+// that check can fail — it is repeated here, bounded, because these suites are not about the health checker
+func waitUpstreamHealthy(name string) {
+	us := upstream.Get(name)
+	if us == nil {
+		return
+	}
+	for attempt := 0; attempt < 20; attempt++ {
+		all := true
+		for _, hu := range us.HTTPUpstream.GetUpstreamList() {
+			if hu.Status() != 2 { // upstream.UpstreamHealthy
+				all = false
+			}
+		}
+		if all {
+			return
+		}
+		stat("upstream-health-retry")
+		time.Sleep(500 * time.Millisecond)
+		us.HTTPUpstream.DoHealthCheck()
+	}
+}
